@@ -68,6 +68,7 @@ Next ==
                       /\ (returned => (closedIn = Inputs /\ (demand > 0 => AllOut(got))))   \* returns only when the inputs are exhausted
                       /\ ((closedIn = Inputs /\ AllOut(got)) => returned)              \* ... and exactly then
                  [] kind = "repl" ->
+                      /\ Ev.pendsend = 0                                               \* the source is read as long as it is open (also with no destination)
                       /\ \A j \in 1..Len(gotD) : gotD[j] = started                     \* every destination got the whole source, in order
                       /\ (returned <=> 0 \in closedIn)
                  [] kind = "stream" ->
